@@ -1,6 +1,20 @@
-(* provisional, overwritten by the translator *)
+(* GENERATED from /repo/plugin/input/file/offset.go (offsetDB.save) and /repo/offset/offset.go
+   (Offset.Save, saveToTmp inlined) by harness/gen (translator "saveproto") — do not edit.
+   One entry per file-system call in execution order; None = an error of this call is logged/ignored and
+   execution continues, Some cl = the function returns after the calls cl.
+   temp file: string(tmpWithRandom) -> o.curOffsetsFile   |   o.getTmpPath() -> o.path *)
 From Verif Require Import Base.Sx Model.FsCrash.
+
 Definition filed_save_protocol : protocol :=
-  [(OpOpen, Some []); (OpWrite, Some [OpRemove; OpClose]); (OpSync, Some [OpRemove; OpClose]); (OpRename, None); (OpClose, None)].
+  [(OpOpen, Some []) (* offset.go:244 *);
+   (OpWrite, Some [OpRemove; OpClose]) (* offset.go:292 *);
+   (OpSync, Some [OpRemove; OpClose]) (* offset.go:299 *);
+   (OpRename, None) (* offset.go:306 *);
+   (OpClose, None) (* function end (deferred) *)].
+
 Definition generic_save_protocol : protocol :=
-  [(OpOpen, Some []); (OpWrite, Some [OpClose]); (OpSync, Some [OpClose]); (OpClose, None); (OpRename, Some [])].
+  [(OpOpen, Some []) (* offset.go:43 *);
+   (OpWrite, Some [OpClose]) (* offset.go:50 *);
+   (OpSync, Some [OpClose]) (* offset.go:54 *);
+   (OpClose, None) (* offset.go:54 (deferred) *);
+   (OpRename, Some []) (* offset.go:61 *)].
